@@ -1,6 +1,6 @@
 (* C06 property theorems ONLY (each closed by an already proved lemma) + assumptions. *)
-From Coq Require Import List NArith Bool Arith Lia.
-From RV Require Import C06.Model C06.Run C06.Diff C06.Index C06.Cadence.
+From Coq Require Import Reals List NArith Bool Arith Lia.
+From RV Require Import C05.Types Gen.Descriptors C06.Model C06.Run C06.Diff C06.Index C06.Cadence C06.CadenceR C06.Members C06.Time.
 Import ListNotations.
 Open Scope N_scope.
 
@@ -28,6 +28,21 @@ Example C06_signed_zero_is_a_difference :
   real_peq 85 86 85 (repeat 0 128) (repeat 0 96 ++ [1;2;3;4;5;6;7;8] ++ repeat 0 24) = true.
 Proof. split; vm_compute; reflexivity. Qed.
 
+(* The comparison of particle / var_config records is regenerated from the current binarydiff.c + rebound.h:
+   records the encoder considers equal agree on every compared byte range, and on the current tree the compared
+   members are ALL non-address members, each double compared bitwise.  Hence a field that is not re-emitted differs
+   from the live one at most in address members (c, ap, sim), which are not state. *)
+Theorem C06_compared_ranges_sound : forall rs p q, ranges_differ rs p q = false ->
+  forall o l, In (o, l) rs -> sub o l p = sub o l q.
+Proof. exact ranges_sound. Qed.
+Print Assumptions C06_compared_ranges_sound.
+
+Theorem C06_compared_members_complete :
+  members_complete particle_members particle_diff_members particle_diff_bitwise &&
+  members_complete varconfig_members varconfig_diff_members varconfig_diff_bitwise = true.
+Proof. exact gen_members_complete. Qed.
+Print Assumptions C06_compared_members_complete.
+
 (* index builder on an archive made of any number of appended blobs: count, offsets, and per-snapshot time =
    the t field of the delta if it has one, else the time of snapshot 0 (the encoder omits t only when equal) *)
 Theorem C06_index_of_appends : forall c, wf_cfg c -> forall h fs0 ds,
@@ -38,11 +53,37 @@ Theorem C06_index_of_appends : forall c, wf_cfg c -> forall h fs0 ds,
 Proof. exact index_of_chain. Qed.
 Print Assumptions C06_index_of_appends.
 
+(* the time the index records for an appended snapshot (t field of its delta, else the time of snapshot 0:
+   C06_index_of_appends) IS the live time of that snapshot, for the delta the encoder produces, whenever the
+   comparison used for the t field is exact (memcmp) *)
+Theorem C06_index_time_is_live_time : forall c peq s0 s tb0 tb,
+  NoDup (types s0) -> NoDup (types s) ->
+  lookup (ty_t c) s0 = Some tb0 -> lookup (ty_t c) s = Some tb -> tb <> [] ->
+  (length tb0 = length tb -> peq (ty_t c) tb0 tb = true -> tb0 = tb) ->
+  tof c (binary_diff peq s0 s) (de tb0) = de tb.
+Proof. exact index_time_live. Qed.
+Print Assumptions C06_index_time_is_live_time.
+
 (* automatic snapshots by step count: exactly at steps_done = s0 + j*auto *)
 Theorem C06_cadence_step : forall auto s0 n x, 0 < auto ->
   In x (hb_run auto s0 s0 n) <-> (s0 <= x < s0 + N.of_nat n /\ (x - s0) mod auto = 0).
 Proof. exact cadence_step. Qed.
 Print Assumptions C06_cadence_step.
+
+(* automatic snapshots by interval, over the reals, for heartbeat times ts that increase by at most one interval
+   per step, starting with a pending threshold next > p (p = time of the previous heartbeat; times and thresholds
+   multiplied by sign(dt), see CadenceR.v): the thresholds answered are next, next+I, next+2I, ... (one snapshot
+   per k, no gaps, no repeats) and each snapshot is taken exactly at the FIRST heartbeat whose time reached it *)
+Theorem C06_cadence_interval_one_per_k : forall (I : R) ts next,
+  map snd (runI I next ts) = thresholds I next (length (runI I next ts)).
+Proof. exact interval_thresholds. Qed.
+Print Assumptions C06_cadence_interval_one_per_k.
+
+Theorem C06_cadence_interval_first_boundary : forall (I : R) ts p next, (0 < I)%R -> (p < next)%R -> incr I p ts ->
+  forall s T, In (s, T) (runI I next ts) ->
+  (T <= s)%R /\ (forall u, In u ts -> (u < s)%R -> (u < T)%R) /\ (p < T)%R.
+Proof. exact interval_first. Qed.
+Print Assumptions C06_cadence_interval_first_boundary.
 
 (* Non-vacuity: a two-delta archive with a vanished field and a t field satisfies every hypothesis. *)
 Example C06_hypotheses_inhabited :
